@@ -23,7 +23,8 @@ func c13GapDevs(toks []Tok, i int, inPrintComma bool) []string {
 	prev, cur := toks[i-1], toks[i]
 	if cur.Sep {
 		// the canonical text has a newline here (statement separator)
-		d := []string{"\n\n", " \n\t", " # c\n", "\r\n", "\n#x\n\n"}
+		// (comments may end in a backslash or hold quotes, slashes and brackets: a comment is over at the line end, nothing in it counts)
+		d := []string{"\n\n", " \n\t", " # c\n", "\r\n", "\n#x\n\n", " # see C:\\logs\\\n", " # \" ' / { ( [ \\n ;\n"}
 		if i == len(toks)-1 {
 			// the end of the text: no newline at all, a comment that runs to the end of the input, trailing blanks
 			d = append(d, "", " # c", " \t\r", "\n\n\n#")
@@ -44,7 +45,7 @@ func c13GapDevs(toks []Tok, i int, inPrintComma bool) []string {
 	d := []string{"  ", "\t", " \r "}
 	newlineOK := prev.S != "print" && prev.S != "return" && !inPrintComma && cur.S != ";"
 	if newlineOK {
-		d = append(d, "\n", " # c\n", "\r\n\t")
+		d = append(d, "\n", " # c\n", "\r\n\t", " # ends in \\\n")
 	}
 	return d
 }
